@@ -130,9 +130,7 @@ Definition show_stats (a : annot) : string :=
   " maxh=" ++ show_N (max_height a) ++ " mh=" ++ show_nat (max_handlers a)
   ++ " mc=" ++ show_nat (max_captured a) ++ " st=" ++ show_nat (count_states a).
 
-(* strict verdict of one function; for a rejected function the lenient verdict is appended as a
-   diagnostic (never used for acceptance) *)
-Definition show_run_verdict (p : program) (f : fn) (v : fn_verdict) : string :=
+Definition show_verdict_detail (v : fn_verdict) : string :=
   match v with
   | FOk a =>
     match nonunique_pcs a with
@@ -141,9 +139,16 @@ Definition show_run_verdict (p : program) (f : fn) (v : fn_verdict) : string :=
       "NONUNIQUE pc=" ++ show_N q ++ show_stats a ++ " n=" ++ show_nat (List.length l)
       ++ " pcs=" ++ show_sep "," show_N (firstn_N 40 l) ++ " hs=" ++ show_heights_at a q
     end
-  | FReject q r =>
-    "REJECT pc=" ++ show_N q ++ " reason=" ++ show_reason r
-    ++ " lenient=(" ++ show_fn_verdict (verify_fn true p f) ++ ")"
+  | FReject q r => "REJECT pc=" ++ show_N q ++ " reason=" ++ show_reason r
+  end.
+
+(* strict verdict of one function; for a rejected function the lenient verdict is appended as a
+   diagnostic (never used for acceptance) *)
+Definition show_run_verdict (p : program) (f : fn) (v : fn_verdict) : string :=
+  match v with
+  | FOk _ => show_verdict_detail v
+  | FReject _ _ =>
+    show_verdict_detail v ++ " lenient=(" ++ show_verdict_detail (verify_fn true p f) ++ ")"
   end.
 
 Fixpoint show_run_list (p : program) (fs : list fn) (vs : list fn_verdict) : string :=
@@ -164,6 +169,18 @@ Definition run_report (wire : string) : string :=
   match parse_program wire with
   | None => "PARSE-ERROR"
   | Some p => run_report_program p
+  end.
+
+(* verdict of the single function [k] of the program (classification of flagged functions: the
+   plug-in re-verifies byte-level repairs of one function in the context of its program) *)
+Definition run_report_fn (k : nat) (wire : string) : string :=
+  match parse_program wire with
+  | None => "PARSE-ERROR"
+  | Some p =>
+    match nth_error p k with
+    | Some f => show_run_verdict p f (verify_fn false p f)
+    | None => "NO-SUCH-FN"
+    end
   end.
 
 (* the developer-facing report of Verifier.v on a wire string (used by the notes/experiments) *)
